@@ -1,6 +1,7 @@
 import SparseSpace.Properties.C03
 #print axioms SparseSpace.C03.threshold_mono
 #print axioms SparseSpace.C03.subValue_fuel_enough
+#print axioms SparseSpace.C03.subValue_loops_terminate
 #print axioms SparseSpace.C03.dimPoints_nested
 #print axioms SparseSpace.C03.dimPoints_level_only
 #print axioms SparseSpace.C03.dimPoints_sorted_endpoints
